@@ -788,6 +788,20 @@ fn run_case(case: &J) -> J {
                 };
                 json!(ok)
             }
+            "cust_del_name" | "cust_mod_name" => {
+                // addressed by name: get_id, then the edit on the ID it returned
+                match module.custom_sections.get_id(op["name"].as_str().unwrap().to_string()) {
+                    Some(id) => {
+                        if name == "cust_del_name" {
+                            module.custom_sections.delete(id);
+                        } else if let Some(d) = module.custom_sections.get_section_data_mut(id) {
+                            *d = unhex(op["bytes"].as_str().unwrap());
+                        }
+                        json!(*id)
+                    }
+                    None => json!(-1),
+                }
+            }
             x => panic!("harness: op {}", x),
         });
         match r {
